@@ -75,7 +75,9 @@ func runEdgeOnce(c EdgeCase, bound time.Duration) (v kit.Verdict, slow bool) {
 		early := 0
 		cl.With(func(r *h2kit.Rec) { early = r.FramesBeforeSettings })
 		if os.Getenv("C08_EDGE_DEBUG") != "" {
-			cl.With(func(r *h2kit.Rec) { fmt.Printf("DEBUG frames=%d wu=%d acks=%d settings=%d early=%d\n", r.Frames, r.WUFrames, r.Acks, len(r.Settings), r.FramesBeforeSettings) })
+			cl.With(func(r *h2kit.Rec) {
+				fmt.Printf("DEBUG frames=%d wu=%d acks=%d settings=%d early=%d\n", r.Frames, r.WUFrames, r.Acks, len(r.Settings), r.FramesBeforeSettings)
+			})
 		}
 		if early > 0 {
 			v.Addf("C08/settings/relay-credit-before-the-servers-preface/first-frame-is-not-settings", "the client sent its request (100 octets of DATA) before the server's SETTINGS had come through: %d frame(s) of the relay's own (WINDOW_UPDATE) reached the client before the SETTINGS frame that must open the server's side of the connection", early)
